@@ -393,7 +393,7 @@ int main(int argc, char** argv) {
     for (auto& c : load_corpus(argc > 4 ? argv[4] : NULL)) from_payload(c.first, c.second);
     Rng g0(seed);
     Rng g(g0.next());
-    int layouts = thorough ? 40000 : 1200;
+    int layouts = thorough ? 40000 : 600;
     if (enabled("wr"))
         for (int li = 0; li < layouts; li++) {
             uint64_t ls = g.next() >> 1;
@@ -401,7 +401,7 @@ int main(int argc, char** argv) {
         }
     // detection flags: the three non-zero flag words in turn, with and without S_CELL_OFFSET
     Rng gd(seed * 0x100000001B3ULL + 12345);
-    int dlayouts = thorough ? 20000 : 1800;
+    int dlayouts = thorough ? 20000 : 900;
     if (enabled("wrd"))
         for (int li = 0; li < dlayouts; li++) {
             uint64_t ls = gd.next() >> 1;
